@@ -123,7 +123,11 @@ impl Projector {
             return items;
         }
 
-        if iter.child().map(|n| n.is_leaf()).unwrap_or(false) {
+        if iter.inlines().is_empty() && iter.child().is_some() {
+            // an item that starts with a code block, a quote, a table or a rule has no text of
+            // its own: its first block follows the list marker directly
+            items.push(vec![]);
+        } else if iter.child().map(|n| n.is_leaf()).unwrap_or(false) {
             items.push(vec![GraphBlock::Para(iter.inlines())]);
         } else {
             items.push(vec![GraphBlock::Plain(iter.inlines())]);
